@@ -154,9 +154,51 @@ def r2(ctx, by):
             if _is_bin_slot(ev.args[0]):
                 ctx.check('R2', '%s:block-free' % f.name, f.name == 'qb_array_free', ev, 'blocks are freed only in qb_array_free',
                           'an element block is freed in %s while the array lives' % f.name)
+    _new_slots_all_null(ctx, by)
     if per_bin is None and not any(r['rule'] == 'R2' and r['key'].endswith('block-from-calloc') for r in ctx.results):
         raise AnalysisBroken('array.c: no block allocation found')
     ctx._c19_per_bin = per_bin
+
+
+def _new_slots_all_null(ctx, by):
+    """realloc does not clear what it adds: every slot from the old num_bins up to the new size is set to NULL before the new size is
+    published - by a loop over exactly that range in steps of one, or by a memset whose length is counted in pointers"""
+    g = by.get('_grow_bin_array')
+    if g is None:
+        raise AnalysisBroken('array.c: _grow_bin_array not found')
+    newp = g.params[1]['n']
+    pub = [ev for ev in g.stores(field='num_bins', rec='qb_array')]
+    if not pub:
+        raise AnalysisBroken('_grow_bin_array: the new table size is not stored')
+    nulls = [ev for ev in g.events('STORE') if _is_bin_slot(ev.lhs) and cval(unwrap(ev.rhs)) == 0]
+    ok, how = False, 'nothing sets the added slots to NULL'
+    for ev in nulls:
+        ixv = estr(unwrap(ev.lhs)['i'])
+        heads = [b for b in g.blocks.values() if b.cond is not None and
+                 any(a.ls == ixv and a.op == '<' and estr(a.r) == newp for a in atoms_of(b.cond, True))]
+        steps = [d for d in g.events('STORE') if estr(d.lhs) == ixv and d.d['op'] != '=']
+        unit = bool(steps) and all(d.d['op'] == '++' or (d.d['op'] == '+=' and cval(unwrap(d.rhs)) == 1) for d in steps)
+        before = all(g.may_follow(ev, p) for p in pub)
+        if heads and unit and before:
+            ok, how = True, 'loop over [num_bins, %s) in steps of one' % newp
+        elif not heads:
+            how = 'the loop that clears the added slots does not run up to %s' % newp
+        elif not unit:
+            how = 'the loop that clears the added slots does not visit every slot'
+    for ev in g.calls('memset'):
+        dst = unwrap(ev.args[0])
+        at_old_end = dst.get('k') == 'addr' and _is_bin_slot(dst['e']) and field_is(unwrap(dst['e'])['i'], 'num_bins', 'qb_array')
+        ln = unwrap(ev.args[2])
+        in_ptrs = ln.get('k') == 'bin' and ln['op'] == '*' and any(
+            n.get('k') == 'sizeof' and cval(n) == 8 for side in (ln['l'], ln['r']) for n in walk(side))
+        span = any(n.get('k') == 'bin' and n['op'] == '-' and estr(n['l']) == newp and field_is(n['r'], 'num_bins', 'qb_array') for n in walk(ln))
+        if at_old_end and cval(unwrap(ev.args[1])) == 0 and in_ptrs and span and all(g.may_follow(ev, p) for p in pub):
+            ok, how = True, 'memset of (%s - num_bins) pointers from the old end' % newp
+        elif not ok:
+            how = 'memset(%s, %s, %s) does not cover (%s - num_bins) * sizeof(void *) bytes from the old end of the table' % (
+                estr(ev.args[0]), estr(ev.args[1]), estr(ev.args[2]), newp)
+    ctx.check('R2', '_grow_bin_array:added-slots-all-null', ok, pub[0], 'every added table slot is NULL before the new size is stored (%s)' % how,
+              '%s: a slot realloc left uninitialised is taken for an installed block (an element address that was never allocated; not zero, not disjoint)' % how)
 
 
 def r3(ctx, by):
@@ -269,6 +311,19 @@ def r4(ctx, by):
         ctx.check('R4', 'autogrow-asks-for-what-the-index-needs', exact or cut, ev,
                   'auto-grow asks for idx + 1 elements' if exact else 'the auto-grow request is cut to the limit',
                   'auto-grow asks for %s elements: for an index just below the limit that can exceed QB_ARRAY_MAX_ELEMENTS, the grow is refused and an index inside the range fails for good' % estr(rq))
+        if cut and not exact:
+            # a request that is cut to the limit succeeds for an index beyond the limit too: "the grow succeeded" then says
+            # nothing about the index, which has to be compared with the limit (or with the new size) itself
+            mx = prog_max(ctx)
+
+            def below_limit(a, fb, mx=mx):
+                return a.op == '<' and mentions_var(a.l, idxp) and (field_is(a.r, 'max_elements') or a.rc == mx)
+            path = f.uncut_path(b, below_limit)
+            ctx.check('R4', 'cut-request-needs-index-below-limit', path is None, ev,
+                      'the request is cut to the limit and the index is compared with the limit before the bin number is computed',
+                      'the auto-grow request is cut to QB_ARRAY_MAX_ELEMENTS, so it succeeds for an index at or beyond the limit as well, '
+                      'and nothing compares the index with the limit afterwards: the bin number is computed for an index outside [0, %d)' % mx,
+                      {'path': f.path_lines(path) if path else None})
     gr = by['qb_array_grow']
     sts = list(gr.stores(field='max_elements', rec='qb_array'))
 
